@@ -20,7 +20,7 @@
      det_piv_None   wf_mat n n G -> det_piv G = None -> some leading principal minor of G is 0
      det_piv_SomeP  wf_mat n n G -> (det_piv G is Some <-> every leading principal minor of G is non-zero)
 
-   The transports to C12 and C08 follow (sections C12 and C08 below). *)
+   The transports are in GeoRankBridge.v (C12) and GaussBridge.v / GaussResidBridge.v (C08). *)
 From Coq Require Import QArith ZArith List.
 From mathcomp Require Import all_ssreflect all_algebra.
 From mathcomp Require Import ssrZ.
